@@ -32,6 +32,12 @@ REASON = {
 
     'C04-undeclared-keys-dropped-for-registered-input': 'needs an input type bound to a Go struct with RegisterType; the coercion model hands input objects over as maps',
     'C11-copyvalue-shallow-objects': 'reported by C11 since the parse-once-resolve-twice argument cases (printed form of the request)',
+    'C05-time-seconds-beyond-year-9999': 'patch no longer applies: fix 1e66263 replaced the code it changed (the Time scalar now builds the value with time.Unix and refuses years outside 0..9999, which is what this change removed); a change that drops the new range check is reported by C05 (the model has the range as flt_secs_ok / rfc_secs)',
+    'C02-type-bound-before-strategy-dispatch': 'needs one GraphQL type whose Go values use two resolving strategies in one request (a map for one value, a struct for the next); a world of the C02 zoo uses one strategy per type',
+    'C07-reflect-arg-error-at-schema-position': 'needs a reflected method whose argument fails to convert after validation accepted the request; the harness resolvers take their arguments through the Resolver interface or through methods whose parameter types match the schema',
+    'C14-schema-installed-by-addtypes': 'the AddTypes entry point (types built in Go, no SDL) is not driven by the harness; the histories of C14 load SDL text',
+    'C16-parsefs-joins-with-space': 'the ParseFS entry point (several files joined) is not driven by the harness; the arrangements of C16 are Parse calls',
+    'C13-input-field-refs-skipped-when-resolved': 'reported, but only as a broken correspondence on a history of loads; no single load shows it',
     'C10-resort-clears-badargs': 'patch no longer applies after fix e474ae4 rewrote the block; the mechanism is covered by C11-badargs-* and C10-badargs-*',
     'C16-validate-only-touched': 'patch no longer applies after the validation loop was changed by fix commits',
     'C20-deliver-after-unlock': 'patch no longer applies after fix ad6edfc; same mechanism as C20-send-outside-lock / C20-deliver-from-copy (reported)',
